@@ -46,7 +46,7 @@ def run(prop, tier, seed, plan, replay_dir=None, merge=False, full=False):
     tmp = engines.scratch()
     try:
         stress = engines.build("inostress", race=True)
-        nprog = int((200 if tier == "quick" else 6000) * float(os.environ.get("VERIF_SCALE", "1")))
+        nprog = int((200 if tier == "quick" else 2500) * float(os.environ.get("VERIF_SCALE", "1")))
         if merge and not full:
             nprog = nprog // 2
         seeds = [seed] if tier == "quick" else [seed, seed + 1, seed + 2]
